@@ -38,6 +38,7 @@ import (
 	"net"
 	"os"
 	"path/filepath"
+	"reflect"
 	"strconv"
 	"strings"
 	"testing"
@@ -156,6 +157,8 @@ type c12Case struct {
 	method    pb.RegistrationSource
 	client    []byte
 	seed      int64
+	// a processor built by the authenticated constructor, used as it is (sender and selector swapped in)
+	prebuilt *RegProcessor
 }
 
 var c12Metrics *metrics.Metrics
@@ -202,6 +205,10 @@ func (c *c12Case) config() (all []Subnet, ex []Subnet, key string) {
 // processor: the fields a constructor derives from the configuration come from the real
 // NewRegProcessorNoAuth; sender, selector, overrides and authentication are the case's.
 func (c *c12Case) processor(snd *c12Sender) *RegProcessor {
+	if c.prebuilt != nil {
+		c.prebuilt.sock, c.prebuilt.ipSelector, c.prebuilt.metrics = snd, &c.sel, c12Metrics
+		return c.prebuilt
+	}
 	all, ex, key := c.config()
 	b := c12Built[key]
 	if b == nil {
@@ -425,6 +432,99 @@ func c12HexOrDash(b []byte) string {
 // ---------------------------------------------------------------------------------------------
 // running one case: implementation answer, model line, oracle
 
+func (c *c12Case) cfgLine(p *RegProcessor) string {
+	pmK := int(math.Round(p.prcntMinRegsToOverride * 10))
+	ppK := int(math.Round(p.prcntPrefixRegsToOverride * 10))
+	var exs []string
+	for _, e := range c.excl {
+		exs = append(exs, c12Subnet{cidr: e}.model())
+	}
+	return fmt.Sprintf("%s,%s,%s,%d,%d;%s;%s;%s", vlib.B(c.auth), vlib.B(c.ovKind != 0), vlib.B(c.enforce), pmK, ppK,
+		c12Subnets(c.minSub), c12Subnets(c.pfxSub), strings.Join(exs, "/"))
+}
+
+func (c *c12Case) reqLine() string {
+	paramTok := "-"
+	if c.params != nil {
+		paramTok = "O:c"
+	}
+	forged := []string{"-", "", ""}
+	if c.forged {
+		forged = []string{fmt.Sprintf("%d.%d", c12ForgedV4, c12ForgedPort), "forged", "sig"}
+	}
+	return strings.Join([]string{vlib.B(!c.noPayload), strconv.Itoa(c.secretLen), vlib.B(c.v4), vlib.B(c.v6), strconv.Itoa(int(c.tr)),
+		vlib.B(c.disable), strconv.Itoa(int(c.source)), c12HexOrDash(c.regAddr), paramTok, forged[0], forged[1], forged[2]}, ",")
+}
+
+// c12Signed: RegRespBytes / RegRespSignature of a forwarded wrapper in canonical form.
+func c12Signed(fwd *pb.C2SWrapper) string {
+	if len(fwd.RegRespBytes) == 0 && len(fwd.RegRespSignature) == 0 {
+		return "-"
+	}
+	sr := &pb.RegistrationResponse{}
+	switch {
+	case !ed25519.Verify(c12Pub, fwd.RegRespBytes, fwd.RegRespSignature):
+		return "BADSIG"
+	case proto.Unmarshal(fwd.RegRespBytes, sr) != nil:
+		return "BADBYTES"
+	}
+	return c12Resp(sr)
+}
+
+// c12RunUni: the same request through RegisterUnidirectional: nothing of a client-supplied response,
+// serialized response or signature may be forwarded.
+func c12RunUni(c *c12Case, out *vlib.Out) (res c12Out) {
+	res.chosen = -1
+	fail := func(sig, what string) { res.fails = append(res.fails, [2]string{sig, what}) }
+	snd := &c12Sender{fail: c.sendFail}
+	p := c.processor(snd)
+	req := c.request()
+	orig := proto.Clone(req).(*pb.C2SWrapper)
+	var err error
+	var panicked any
+	func() {
+		defer func() { panicked = recover() }()
+		err = p.RegisterUnidirectional(req, c.method, c.client)
+	}()
+	res.line = strings.Join([]string{"uni", c.cfgLine(p), c.reqLine(), strconv.Itoa(int(c.method)), c12HexOrDash(c.client), vlib.B(!c.sendFail)}, "|")
+	switch {
+	case panicked != nil:
+		res.impl = "panic: " + fmt.Sprint(panicked)
+		fail("C12:panic", "RegisterUnidirectional panicked: "+fmt.Sprint(panicked))
+		return
+	case err != nil:
+		res.impl = "err"
+		out.Count("uni:err")
+		return
+	}
+	out.Count("uni:ok")
+	fwd := &pb.C2SWrapper{}
+	if len(snd.got) != 1 || proto.Unmarshal(snd.got[0], fwd) != nil {
+		fail("C12:not-forwarded", fmt.Sprintf("a successful unidirectional registration published %d parsable messages", len(snd.got)))
+		res.impl = "ok-but-not-forwarded"
+		return
+	}
+	secretKept := string(fwd.SharedSecret) == string(orig.SharedSecret)
+	payloadKept := proto.Equal(fwd.RegistrationPayload, orig.RegistrationPayload)
+	res.impl = strings.Join([]string{"ok", "F=" + c12Resp(fwd.RegistrationResponse), "S=" + c12Signed(fwd),
+		fmt.Sprintf("src=%d", int(fwd.GetRegistrationSource())), "addr=" + c12HexOrDash(fwd.RegistrationAddress),
+		"keep=" + vlib.B(secretKept) + vlib.B(payloadKept)}, "|")
+	res.ok, res.nontrivial = true, true
+	if fwd.RegistrationResponse != nil {
+		fail("C12:forged-response-used", "a unidirectional registration was forwarded with a RegistrationResponse: "+c12Resp(fwd.RegistrationResponse))
+	}
+	if len(fwd.RegRespBytes) != 0 || len(fwd.RegRespSignature) != 0 {
+		fail("C12:forged-signature-forwarded", "a unidirectional registration was forwarded with RegRespBytes / RegRespSignature")
+	}
+	if !payloadKept {
+		fail("C12:payload-changed", "the forwarded registration payload differs from the client's")
+	}
+	if !secretKept {
+		fail("C12:secret-changed", "the forwarded shared secret differs from the client's")
+	}
+	return
+}
+
 type c12Out struct {
 	line, impl string
 	nontrivial bool
@@ -549,24 +649,7 @@ func c12Run(c *c12Case, out *vlib.Out) (res c12Out) {
 	}
 
 	// model line
-	pmK := int(math.Round(p.prcntMinRegsToOverride * 10))
-	ppK := int(math.Round(p.prcntPrefixRegsToOverride * 10))
-	var exs []string
-	for _, e := range c.excl {
-		exs = append(exs, c12Subnet{cidr: e}.model())
-	}
-	cfg := fmt.Sprintf("%s,%s,%s,%d,%d;%s;%s;%s", vlib.B(c.auth), vlib.B(c.ovKind != 0), vlib.B(c.enforce), pmK, ppK,
-		c12Subnets(c.minSub), c12Subnets(c.pfxSub), strings.Join(exs, "/"))
-	paramTok := "-"
-	if c.params != nil {
-		paramTok = "O:c"
-	}
-	forged := []string{"-", "", ""}
-	if c.forged {
-		forged = []string{fmt.Sprintf("%d.%d", c12ForgedV4, c12ForgedPort), "forged", "sig"}
-	}
-	reqS := strings.Join([]string{vlib.B(!c.noPayload), strconv.Itoa(c.secretLen), vlib.B(c.v4), vlib.B(c.v6), strconv.Itoa(int(c.tr)),
-		vlib.B(c.disable), strconv.Itoa(int(c.source)), c12HexOrDash(c.regAddr), paramTok, forged[0], forged[1], forged[2]}, ",")
+	cfg, reqS := c.cfgLine(p), c.reqLine()
 	s4 := "e"
 	if !c.sel.err4 {
 		if c.sel.v4.To4() == nil {
@@ -615,18 +698,7 @@ func c12Run(c *c12Case, out *vlib.Out) (res c12Out) {
 		res.impl = "ok-but-unparsable"
 		return
 	}
-	signed := "-"
-	if len(fwd.RegRespBytes) > 0 || len(fwd.RegRespSignature) > 0 {
-		sr := &pb.RegistrationResponse{}
-		switch {
-		case !ed25519.Verify(c12Pub, fwd.RegRespBytes, fwd.RegRespSignature):
-			signed = "BADSIG"
-		case proto.Unmarshal(fwd.RegRespBytes, sr) != nil:
-			signed = "BADBYTES"
-		default:
-			signed = c12Resp(sr)
-		}
-	}
+	signed := c12Signed(fwd)
 	secretKept := string(fwd.SharedSecret) == string(orig.SharedSecret)
 	payloadKept := proto.Equal(fwd.RegistrationPayload, orig.RegistrationPayload) || c12SameButTypeURL(fwd.RegistrationPayload, orig.RegistrationPayload)
 	res.impl = strings.Join([]string{"ok", "C=" + c12Resp(resp), "F=" + c12Resp(fwd.RegistrationResponse), "S=" + signed,
@@ -809,6 +881,44 @@ func c12StationErrKind(err error) string {
 	return "other " + m
 }
 
+// c12RejectClass: a stable name for the reason a station refuses a wrapper (the text of the innermost
+// error without numbers).
+func c12RejectClass(err error) string {
+	m := err.Error()
+	if strings.Contains(m, "client couldn't support this transport") {
+		return "client-version-cannot-support-transport"
+	}
+	if i := strings.LastIndex(m, ": "); i >= 0 && i+2 < len(m) {
+		if _, e := strconv.Atoi(strings.TrimSpace(m[i+2:])); e != nil {
+			m = m[i+2:]
+		} else {
+			m = m[:i]
+			if j := strings.LastIndex(m, ": "); j >= 0 {
+				m = m[j+2:]
+			}
+		}
+	}
+	var b strings.Builder
+	dash := false
+	for _, r := range strings.ToLower(m) {
+		if r >= 'a' && r <= 'z' {
+			b.WriteRune(r)
+			dash = false
+		} else if !dash && b.Len() > 0 {
+			b.WriteByte('-')
+			dash = true
+		}
+	}
+	out := strings.Trim(b.String(), "-")
+	if len(out) > 60 {
+		out = out[:60]
+	}
+	if out == "" {
+		out = "unknown"
+	}
+	return out
+}
+
 func c12RespLine(r *pb.RegistrationResponse, tr pb.TransportType, libver uint) string {
 	if r == nil {
 		return "-"
@@ -897,8 +1007,18 @@ func c12StationOracle(c *c12Case, raw []byte, fwd *pb.C2SWrapper, resp *pb.Regis
 	bare, _ := parse(sb)
 	out.Count(fmt.Sprintf("station:built-%d-of-%d", len(regs), len(bare)))
 	if len(regs) < len(bare) {
-		fail("C12:station-rejects-forwarded", fmt.Sprintf("the station builds %d registration(s) from the forwarded message but %d from the same message without the registrar's response %s (error: %v)",
-			len(regs), len(bare), c12Resp(fwd.RegistrationResponse), err))
+		// the signature names the class of the station's refusal
+		class, why := "unknown", error(nil)
+		for _, v6 := range []bool{false, true} {
+			if (v6 && fwd.GetRegistrationPayload().GetV6Support()) || (!v6 && fwd.GetRegistrationPayload().GetV4Support()) {
+				if _, e := c12StationCall(proto.Clone(fwd).(*pb.C2SWrapper), v6); e != nil {
+					class, why = c12RejectClass(e), e
+					break
+				}
+			}
+		}
+		fail("C12:station-rejects-forwarded:"+class, fmt.Sprintf("the station builds %d registration(s) from the forwarded message but %d from the same message without the registrar's response %s (library version %d, transport %v): %v",
+			len(regs), len(bare), c12Resp(fwd.RegistrationResponse), c.libver, c.tr, why))
 	}
 	clientAny := fwd.GetRegistrationPayload().GetTransportParams()
 	for _, reg := range regs {
@@ -1075,14 +1195,21 @@ func c12Random(r *vlib.Rand) *c12Case {
 
 // seedFor finds a math/rand seed whose first Float64 lies strictly inside (lo, hi).
 func c12SeedFor(lo, hi float64, start int64) int64 {
+	key := [3]float64{lo, hi, float64(start)}
+	if s, ok := c12SeedMemo[key]; ok {
+		return s
+	}
 	m := (hi - lo) / 8
 	for s := start; ; s++ {
 		u := mrand.New(mrand.NewSource(s)).Float64()
 		if u > lo+m && u < hi-m {
+			c12SeedMemo[key] = s
 			return s
 		}
 	}
 }
+
+var c12SeedMemo = map[[3]float64]int64{}
 
 // ---------------------------------------------------------------------------------------------
 
@@ -1316,6 +1443,215 @@ func c12All(sink *vlib.Out, emit c12Emit) {
 		emit("pct", i, c12Run(c, sink), true)
 		sink.Count("gen:percent-oracle-only")
 	}
+
+	// 5. the same requests as unidirectional registrations
+	U := vlib.Budget(4000, 50000)
+	for i := 0; i < U; i++ {
+		r := vlib.NewRand(fmt.Sprintf("C12/uni/%d", i))
+		c := c12Random(r)
+		c.forged = r.Chance(3, 4)
+		emit("uni", i, c12RunUni(c, sink), false)
+		sink.Count("gen:unidirectional")
+	}
+
+	// 6. the station's rule on wrappers made by hand: every way a response can be absent, malformed or of
+	// the wrong family, every kind of registrant address (correspondence only)
+	S := vlib.Budget(5000, 60000)
+	for i := 0; i < S; i++ {
+		r := vlib.NewRand(fmt.Sprintf("C12/station/%d", i))
+		w := c12StationWrapper(r)
+		res := c12Out{chosen: -1}
+		for _, v6 := range []bool{false, true} {
+			line, impl, _ := c12StationCase(w, v6)
+			if strings.HasPrefix(impl, "reject PANIC") || strings.HasPrefix(impl, "reject other") {
+				res.fails = append(res.fails, [2]string{"C12:station-panic", "NewRegistrationC2SWrapper: " + impl})
+			}
+			res.subs = append(res.subs, c12Sub{line, impl})
+			sink.Count("station-direct:" + strings.SplitN(impl, "|", 2)[0])
+		}
+		res.line = res.subs[0].line
+		emit("station", i, res, true)
+		sink.Count("gen:station-direct")
+	}
+
+	// 7. the processor built by the authenticated constructor, swept as it is
+	c12CtorSweep(sink, emit)
+}
+
+// c12StationWrapper: a wrapper as a station could receive it, made by hand.
+func c12StationWrapper(r *vlib.Rand) *pb.C2SWrapper {
+	c := c12Random(r)
+	c.noPayload, c.secretLen, c.forged, c.gen = false, 32, false, 1
+	if c.tr == pb.TransportType_Obfs4 {
+		c.tr = pb.TransportType_Min
+	}
+	if c.tr == pb.TransportType_Prefix && r.Chance(2, 3) {
+		id := int32(r.Intn(10))
+		c.params = c12PrefixAny(&id, nil, nil, true)
+		c.libver = 4
+	}
+	w := c.request()
+	switch r.Intn(7) {
+	case 0:
+		w.RegistrationAddress = nil
+	case 1:
+		w.RegistrationAddress = net.ParseIP("198.51.100.23").To4()
+	case 2:
+		w.RegistrationAddress = net.ParseIP("198.51.100.23").To16()
+	case 3:
+		w.RegistrationAddress = net.ParseIP("2001:db8:c::1")
+	case 4:
+		w.RegistrationAddress = []byte{1, 2, 3, 4, 5}
+	case 5:
+		w.RegistrationAddress = make([]byte, 16)
+	case 6:
+		w.RegistrationAddress = make([]byte, 17)
+	}
+	if r.Chance(1, 8) {
+		return w
+	}
+	rr := &pb.RegistrationResponse{}
+	switch r.Intn(4) {
+	case 0:
+		rr.Ipv4Addr = proto.Uint32(0)
+	case 1, 2:
+		rr.Ipv4Addr = proto.Uint32(c12V4num(net.ParseIP(c12V4Pool[r.Intn(len(c12V4Pool))])))
+	}
+	switch r.Intn(8) {
+	case 0:
+		rr.Ipv6Addr = []byte{}
+	case 1:
+		rr.Ipv6Addr = net.ParseIP("10.20.30.40").To4()
+	case 2:
+		rr.Ipv6Addr = net.ParseIP("10.20.30.40").To16()
+	case 3:
+		rr.Ipv6Addr = []byte{1, 2, 3, 4, 5}
+	case 4, 5, 6:
+		rr.Ipv6Addr = net.ParseIP(fmt.Sprintf("2001:db8:99::%x", r.Intn(60000)+1))
+	}
+	switch r.Intn(6) {
+	case 0:
+		rr.DstPort = proto.Uint32(443)
+	case 1:
+		rr.DstPort = proto.Uint32(70000)
+	case 2:
+		rr.DstPort = proto.Uint32(65536)
+	case 3, 4:
+		rr.DstPort = proto.Uint32(uint32(r.Intn(65536)))
+	}
+	tb := true
+	switch r.Intn(7) {
+	case 0:
+		id := int32(r.Intn(10))
+		rr.TransportParams = c12PrefixAny(&id, nil, nil, true)
+	case 1:
+		id := int32(77)
+		rr.TransportParams = c12PrefixAny(&id, &tb, []byte("HELLO"), true)
+	case 2:
+		id := int32(55)
+		rr.TransportParams = c12PrefixAny(&id, nil, nil, true)
+	case 3:
+		rr.TransportParams = c12GenericAny(&tb)
+	case 4:
+		rr.TransportParams = proto.Clone(c12ForgedParams).(*anypb.Any)
+	}
+	w.RegistrationResponse = rr
+	return w
+}
+
+var c12AuthProc *RegProcessor
+var c12AuthCase = func() *c12Case {
+	c := c12Base()
+	c.auth, c.ovKind, c.enforce = true, 2, true
+	c.minSub, c.pfxSub = c12SubnetSets[3], c12SubnetSets[8]
+	c.excl = c12Excl[2]
+	c.pctMin, c.pctPfx = 100, 100
+	return c
+}
+
+// c12CtorSweep: newRegProcessor (the constructor behind NewRegProcessor: zmq socket with CURVE
+// authentication, the deployed override list) is run once per process; its derived fields must equal
+// those of NewRegProcessorNoAuth for the same configuration, and a sweep over both transports' override
+// subnets goes through the processor it returned.
+func c12CtorSweep(sink *vlib.Out, emit c12Emit) {
+	proto0 := c12AuthCase()
+	all, ex, _ := proto0.config()
+	var res0 c12Out
+	res0.chosen = -1
+	if c12AuthProc == nil {
+		p, err := newRegProcessor("127.0.0.1", 0, c12Priv, false, nil, proto0.enforce, all, ex, proto0.pctMin, proto0.pctPfx)
+		if err != nil {
+			panic("c12: newRegProcessor failed: " + err.Error())
+		}
+		p.sock.Close() // the ZAP handler stays up: it cannot be restarted within one process
+		_ = p.AddTransport(pb.TransportType_Min, min.Transport{})
+		_ = p.AddTransport(pb.TransportType_Prefix, prefix.DefaultSet())
+		c12AuthProc = p
+	}
+	p := c12AuthProc
+	b := proto0.processor(&c12Sender{}) // the fields NewRegProcessorNoAuth derives from the same configuration
+	same := p.enforceSubnetOverrides == b.enforceSubnetOverrides &&
+		reflect.DeepEqual(p.minOverrideSubnets, b.minOverrideSubnets) && reflect.DeepEqual(p.prefixOverrideSubnets, b.prefixOverrideSubnets) &&
+		reflect.DeepEqual(p.minOverrideSubnetsCumulativeWeights, b.minOverrideSubnetsCumulativeWeights) &&
+		reflect.DeepEqual(p.prefixOverrideSubnetsCumulativeWeights, b.prefixOverrideSubnetsCumulativeWeights) &&
+		reflect.DeepEqual(p.exclusionsFromOverride, b.exclusionsFromOverride) &&
+		p.prcntMinRegsToOverride == b.prcntMinRegsToOverride && p.prcntPrefixRegsToOverride == b.prcntPrefixRegsToOverride
+	if !same {
+		res0.fails = append(res0.fails, [2]string{"C12:constructors-disagree",
+			"newRegProcessor and NewRegProcessorNoAuth derive different override subnets / weights / exclusions / percentages from the same configuration"})
+	}
+	if !p.authenticated || string(p.privkey) != string(c12Priv) {
+		res0.fails = append(res0.fails, [2]string{"C12:constructors-disagree", "newRegProcessor did not keep the signing key / is not authenticated"})
+	}
+	if len(p.regOverrides) != 1 {
+		sink.Note(fmt.Sprintf("newRegProcessor installs %d registration overrides (the model assumes one)", len(p.regOverrides)))
+	} else if _, ok := p.regOverrides[0].(*overrides.RandPrefixOverride); !ok {
+		sink.Note(fmt.Sprintf("newRegProcessor installs a %T, not the random prefix override the sweep assumes", p.regOverrides[0]))
+		return
+	}
+	res0.line = "ctor"
+	emit("ctor-fields", 0, res0, true)
+	n := 0
+	for _, tr := range []pb.TransportType{pb.TransportType_Min, pb.TransportType_Prefix} {
+		subs := proto0.minSub
+		if tr == pb.TransportType_Prefix {
+			subs = proto0.pfxSub
+		}
+		total, acc := 0.0, 0.0
+		for _, s := range subs {
+			total += s.weight
+		}
+		for i, s := range subs {
+			lo, hi := acc/total, (acc+s.weight)/total
+			acc += s.weight
+			if s.weight == 0 {
+				continue
+			}
+			for k := 0; k < 2; k++ {
+				c := c12AuthCase()
+				c.prebuilt = p
+				c.tr = tr
+				c.forged = k == 1
+				c.v6 = k == 1
+				if tr == pb.TransportType_Prefix {
+					id := int32(prefix.Min)
+					c.params = c12PrefixAny(&id, nil, nil, true)
+				}
+				c.seed = c12SeedFor(lo, hi, int64(7000*i+91*k))
+				res := c12Run(c, sink)
+				if res.ok && res.chosen != i {
+					res.fails = append(res.fails, [2]string{"C12:weighted-subnet-unreachable",
+						fmt.Sprintf("processor built by newRegProcessor: the draw lies in the interval [%.6f,%.6f) of subnet %d (%s) but subnet index %d was used", lo, hi, i, s.cidr, res.chosen)})
+				}
+				if !res.ok {
+					res.fails = append(res.fails, [2]string{"C12:constructors-disagree", "a plain registration failed on the processor built by newRegProcessor: " + res.impl})
+				}
+				emit("ctor", n, res, false)
+				sink.Count("gen:ctor-sweep")
+				n++
+			}
+		}
+	}
 }
 
 func c12Corpus() []*c12Case {
@@ -1407,5 +1743,22 @@ func c12Corpus() []*c12Case {
 		c.regAddr = net.ParseIP("198.51.100.23").To16()
 	})
 	add(func(c *c12Case) { c.enforce = false; c.client = nil; c.regAddr = net.ParseIP("198.51.100.23").To16() })
+	// the witness of CJ.Props.C12.station_accepts_forwarded_full_refuted (recorded finding): a Prefix
+	// registration of a library version that cannot support the transport, without parameters, on a phantom
+	// without random-port support, answered with override parameters the station then refuses
+	add(func(c *c12Case) {
+		c.enforce = false
+		c.tr = pb.TransportType_Prefix
+		c.libver = 2
+		c.sel.rp4 = false
+		c.ovKind, c.ovPrefix = 1, prefix.OpenSSH2
+	})
+	// … and the same client where the registrar attaches nothing: accepted by registrar and station alike
+	add(func(c *c12Case) {
+		c.enforce = false
+		c.tr = pb.TransportType_Prefix
+		c.libver = 2
+		c.sel.rp4 = false
+	})
 	return l
 }
